@@ -8,6 +8,7 @@ import (
 	"time"
 
 	yae "github.com/goghcrow/yae"
+	"github.com/goghcrow/yae/parser/oper"
 	"github.com/goghcrow/yae/types"
 	"github.com/goghcrow/yae/val"
 
@@ -46,6 +47,7 @@ type c13Content struct {
 func c13Contents(g *ref.Gen) []*c13Content {
 	mk := func(name string, variant int, mismatch bool) *c13Content {
 		mismatch2 := name == "Y-mismatch"
+		nested := name == "Z-nested" // same names and top-level kinds, other element types
 		env := bridge.NewEnv()
 		host := map[string]interface{}{}
 		put := func(n string, v *ref.V, h interface{}) { env.Put(n, v); host[n] = h }
@@ -59,14 +61,25 @@ func c13Contents(g *ref.Gen) []*c13Content {
 			put("s", ref.VStr(s), s)
 		}
 		put("b", ref.VBool(variant%2 == 0), variant%2 == 0)
-		xs := []float64{f, f + 1, f + 2, 3}
-		put("xs", ref.VList(ref.TNum, ref.VNum(xs[0]), ref.VNum(xs[1]), ref.VNum(xs[2]), ref.VNum(xs[3])), xs)
-		m := map[string]float64{"a": f, "b": f + 1, "c": 3, "dd": 4, "e": f * 2}
-		mv := ref.VMap(ref.TStr, ref.TNum)
-		for _, k := range []string{"a", "b", "c", "dd", "e"} {
-			mv.MapPut(ref.VStr(k), ref.VNum(m[k]))
+		if nested {
+			xs := []string{"p", "q", "r"}
+			put("xs", ref.VList(ref.TStr, ref.VStr(xs[0]), ref.VStr(xs[1]), ref.VStr(xs[2])), xs)
+			m := map[string]string{"a": "1", "b": "2"}
+			mv := ref.VMap(ref.TStr, ref.TStr)
+			for _, k := range []string{"a", "b"} {
+				mv.MapPut(ref.VStr(k), ref.VStr(m[k]))
+			}
+			put("m", mv, m)
+		} else {
+			xs := []float64{f, f + 1, f + 2, 3}
+			put("xs", ref.VList(ref.TNum, ref.VNum(xs[0]), ref.VNum(xs[1]), ref.VNum(xs[2]), ref.VNum(xs[3])), xs)
+			m := map[string]float64{"a": f, "b": f + 1, "c": 3, "dd": 4, "e": f * 2}
+			mv := ref.VMap(ref.TStr, ref.TNum)
+			for _, k := range []string{"a", "b", "c", "dd", "e"} {
+				mv.MapPut(ref.VStr(k), ref.VNum(m[k]))
+			}
+			put("m", mv, m)
 		}
-		put("m", mv, m)
 		ss := []string{"x", "y", []string{"z", "晓"}[variant%2]}
 		if mismatch2 {
 			put("ss", ref.VStr("abc"), "abc") // ss : str instead of list[str]
@@ -77,7 +90,7 @@ func c13Contents(g *ref.Gen) []*c13Content {
 		put("el", ref.VList(ref.TNum), []float64{})
 		return &c13Content{name: name, env: env, host: host, tenv: env.TypeEnv(), venv: env.ValEnv()}
 	}
-	return []*c13Content{mk("A", 0, false), mk("B", 1, false), mk("C", 2, false), mk("D", 3, false), mk("Y-mismatch", 2, false), mk("X-mismatch", 1, true)}
+	return []*c13Content{mk("A", 0, false), mk("B", 1, false), mk("C", 2, false), mk("D", 3, false), mk("Z-nested", 1, false), mk("Y-mismatch", 2, false), mk("X-mismatch", 1, true)}
 }
 
 func snapshotHost(c *c13Content) string {
@@ -107,7 +120,25 @@ type c13Engine struct {
 	name string
 	ex   *yae.Expr
 	sess *bridge.Session
+	late bool // registerLate has been called
 }
+
+// registerLate adds, to an engine that may already have compiled, a function
+// and an operator no earlier expression could have used.
+func (e *c13Engine) registerLate() {
+	if e.late {
+		return
+	}
+	e.late = true
+	num2 := types.Fun("+-", []*types.Type{types.Num, types.Num}, types.Num)
+	e.ex.RegisterOperator(oper.Operator{Kind: "+-", BP: oper.BP_TERM, Fixity: oper.INFIX_L})
+	e.ex.RegisterFun(
+		val.Fun(num2, func(a ...*val.Val) *val.Val { return val.Num(1000 + a[0].Num().V*10 + a[1].Num().V) }),
+		val.Fun(types.Fun("late", []*types.Type{types.Num}, types.Num), func(a ...*val.Val) *val.Val { return val.Num(a[0].Num().V + 0.25) }),
+	)
+}
+
+var c13LateSrcs = []string{"late(n) + 1", "n +- k", "late(n +- 1) +- late(k)"}
 
 // c13Order: the second engine kind registers the same functions in reverse
 // order: polymorphic overload sets (ov) then resolve differently, and nothing
@@ -135,7 +166,7 @@ func newC13Engine(name string, closureCompiler bool, user []*ref.Fun) *c13Engine
 	// the harness functions" as in the reference table
 	ex.Compile("1", nil)
 	ex.RegisterFun(sess.UserVals...)
-	return &c13Engine{name, ex, sess}
+	return &c13Engine{name: name, ex: ex, sess: sess}
 }
 
 // one operation against the facade; never panics
@@ -242,6 +273,13 @@ func runC13(c *run.Ctx) {
 			for _, e := range exprs {
 				srcs = append(srcs, ref.Render(e))
 			}
+			nRef := len(srcs) // expressions with a reference tree
+			srcs = append(srcs, c13LateSrcs...)
+			// expressions over built-ins only: also through the package-level Eval / Debug
+			builtinOnly := []int{0, 1, 4, 5, 7, 10, 11, 12, 13, 15}
+			// one *types.Env the host updates in place between compilations
+			mutable := types.NewEnv()
+			_ = nRef
 			c.Input(strings.Join(srcs, " ;; "))
 			ft := funTable(user)
 			// reference prediction of what print writes, per (expression, content)
@@ -267,12 +305,16 @@ func runC13(c *run.Ctx) {
 			engines := []*c13Engine{newC13Engine("vm", false, user), newC13Engine("closure", true, user)}
 			// baselines: fresh engine, fresh environment objects, once per (engine kind, expression, content)
 			baseline := map[string]opOut{}
+			var lateNow bool // whether the baseline engine registers the late function / operator
 			base := func(ek int, ei int, cc *c13Content, ct *c13Content) opOut {
-				key := fmt.Sprintf("%d/%d/%s/%s", ek, ei, cc.name, ct.name)
+				key := fmt.Sprintf("%d/%d/%s/%s/%v", ek, ei, cc.name, ct.name, lateNow)
 				if o, ok := baseline[key]; ok {
 					return o
 				}
 				fresh := newC13Engine("fresh", ek == 1, user)
+				if lateNow {
+					fresh.registerLate()
+				}
 				g2 := &ref.Gen{R: c.Rng("fresh", 0)}
 				fc := c13Contents(g2)
 				var f0, fx *c13Content
@@ -291,6 +333,18 @@ func runC13(c *run.Ctx) {
 				} else {
 					o = facadeInvoke(fresh, cl, fx.venv)
 				}
+				if lateNow && ei >= nRef && o.Kind != "compile-error" {
+					// what the late function and operator compute is known outright
+					nv, kv := fx.env.V["n"], fx.env.V["k"]
+					if nv != nil && kv != nil && nv.T.K == ref.KNum && kv.T.K == ref.KNum {
+						n, k := nv.N, kv.N
+						pm := func(x, y float64) float64 { return 1000 + x*10 + y }
+						abs := []float64{n + 0.25 + 1, pm(n, k), pm(pm(n, 1)+0.25, k+0.25)}
+						if want := ref.Dump(ref.VNum(abs[ei-nRef])); o.Kind == "value" && !strings.HasPrefix(o.Detail, want+" ::") {
+							c.Violation("reuse-compile", fmt.Sprintf("%q on an engine that compiled before the function `late` and the operator `+-` were registered gives [%s]; the registered functions compute %s", srcs[ei], o, want), nil)
+						}
+					}
+				}
 				baseline[key] = o
 				return o
 			}
@@ -298,6 +352,7 @@ func runC13(c *run.Ctx) {
 				ek, ei int
 				cc     *c13Content
 				cl     yae.Callable
+				late   bool
 			}
 			var pool []compiled
 			var expectOut []string
@@ -307,16 +362,89 @@ func runC13(c *run.Ctx) {
 				for op := 0; op < nops; op++ {
 					ek := r.Intn(len(engines))
 					eng := engines[ek]
-					switch k := r.Intn(10); {
+					lateNow = eng.late
+					k := r.Intn(10)
+					if x := r.Intn(40); x < 5 && len(pool) > 0 {
+						k = 100 + x
+					}
+					switch {
+					case k == 100: // a function and an operator are registered on the used engine
+						eng.registerLate()
+						c.Count("late_registrations", 1)
+						log = append(log, fmt.Sprintf("register-late[%s]", eng.name))
+					case k == 101 || k == 102: // package-level Eval / Debug on a reused host map
+						ei := builtinOnly[r.Intn(len(builtinOnly))]
+						ct := contents[r.Intn(len(contents))]
+						var o opOut
+						name := "Eval"
+						func() {
+							defer func() {
+								if p := recover(); p != nil {
+									o = opOut{Kind: "PANIC", Detail: fmt.Sprint(p)}
+								}
+							}()
+							var v *val.Val
+							var err error
+							if k == 101 {
+								v, err = yae.Eval(srcs[ei], ct.host)
+							} else {
+								name = "Debug"
+								v, _, err = yae.Debug(srcs[ei], ct.host)
+							}
+							if err != nil {
+								kk, d := errKind(err.Error())
+								o = opOut{Kind: kk, Detail: d}
+								return
+							}
+							rv, ierr := bridge.FromVal(v, nil)
+							if ierr != nil {
+								o = opOut{Kind: "value", Detail: "ILL-FORMED " + ierr.Error()}
+								return
+							}
+							o = opOut{Kind: "value", Detail: ref.Dump(rv) + " :: " + ref.Stringify(rv), Show: v.String()}
+						}()
+						lateNow = false
+						c.Count("package_level_calls", 1)
+						want := base(0, ei, ct, ct)
+						log = append(log, fmt.Sprintf("%s %s with %s -> %s", name, srcs[ei], ct.name, o))
+						c.Count("operations_compared", 1)
+						if want.Kind == "compile-error" {
+							if o.Kind == "value" || o.Kind == "PANIC" {
+								c.Violation("history-dependence", fmt.Sprintf("operation %d: yae.%s(%q) over environment %s gives [%s]; a fresh engine refuses to compile it", op, name, srcs[ei], ct.name, o), log)
+							}
+						} else if o != want {
+							c.Violation("history-dependence", fmt.Sprintf("operation %d: yae.%s(%q) over environment %s gives [%s]; evaluated alone on fresh objects it gives [%s]", op, name, srcs[ei], ct.name, o, want), log)
+						}
+					case k == 103 || k == 104: // the host rewrites one *types.Env in place, then compiles and runs once
+						ct := contents[[]int{0, len(contents) - 1, len(contents) - 2, len(contents) - 3, 1}[r.Intn(5)]]
+						for _, n := range ct.env.Names {
+							t, _ := ct.tenv.Get(n)
+							mutable.Put(n, t)
+						}
+						ei := r.Intn(len(srcs))
+						c.Count("environment_rewrites", 1)
+						cl, o := facadeCompile(eng, srcs[ei], mutable)
+						want := base(ek, ei, ct, ct)
+						log = append(log, fmt.Sprintf("compile[%s] %s against the updated environment (now typed as %s) -> %s", eng.name, srcs[ei], ct.name, o.Kind))
+						c.Count("operations_compared", 1)
+						if (o.Kind == "compiled") != (want.Kind != "compile-error") || o.Kind == "PANIC" {
+							c.Violation("reuse-compile", fmt.Sprintf("operation %d: compiling %q against a *types.Env updated in place to the types of %s gives %s %s; a fresh engine and environment give %s", op, srcs[ei], ct.name, o.Kind, o.Detail, want.Kind), log)
+						} else if cl != nil {
+							if o2 := facadeInvoke(eng, cl, ct.venv); o2 != want {
+								c.Violation("history-dependence", fmt.Sprintf("operation %d: %q compiled against a *types.Env updated in place to the types of %s gives [%s]; on fresh objects it gives [%s]", op, srcs[ei], ct.name, o2, want), log)
+							}
+						}
 					case k < 3 || len(pool) == 0: // compile, reusing the same environment objects
 						ei := r.Intn(len(srcs))
 						// compile-time environments of both type signatures
 						cc := contents[0]
-						switch r.Intn(5) {
+						switch r.Intn(6) {
 						case 0:
 							cc = contents[len(contents)-1]
 						case 1:
 							cc = contents[len(contents)-2]
+						case 2:
+							cc = contents[len(contents)-3]
 						}
 						var envObj interface{} = cc.tenv
 						if r.Intn(3) == 0 {
@@ -329,7 +457,7 @@ func runC13(c *run.Ctx) {
 							c.Violation("reuse-compile", fmt.Sprintf("operation %d: compiling %q on a reused engine / environment object gives %s %s; a fresh engine and environment give %s", op, srcs[ei], o.Kind, o.Detail, want.Kind), log)
 						}
 						if cl != nil {
-							pool = append(pool, compiled{ek, ei, cc, cl})
+							pool = append(pool, compiled{ek, ei, cc, cl, eng.late})
 						}
 					default: // invoke a stored callable with a reused environment object
 						p := pool[r.Intn(len(pool))]
@@ -339,6 +467,7 @@ func runC13(c *run.Ctx) {
 							envObj = ct.host
 						}
 						o := facadeInvoke(engines[p.ek], p.cl, envObj)
+						lateNow = p.late
 						want := base(p.ek, p.ei, p.cc, ct)
 						log = append(log, fmt.Sprintf("invoke[%s] %s (compiled against %s) with %s -> %s", engines[p.ek].name, srcs[p.ei], p.cc.name, ct.name, o))
 						c.Count("operations_compared", 1)
@@ -444,7 +573,7 @@ func c13Stdout(c *run.Ctx, out string, log []string) {
 func init() {
 	run.Register(&run.Spec{
 		ID: "C13", Run: runC13, Level: "exploration",
-		Rule: "histories of 50-400 operations {Compile, Invoke} on two reused engines (vm and closure compiler, harness strict / lazy functions registered) over a pool of 15 expressions (fixed: map rendering, print, lazy host calls, shared sub-values; generated) and 5 environment contents (4 of equal types and different values, 1 with a mismatching type), each content reused as the same map, *types.Env and *val.Env object across calls, expressions and engines; file descriptor 1 redirected for the duration; " +
+		Rule: "histories of 50-400 operations {Compile, Invoke, package-level Eval / Debug over the reused host maps, late registration of a function and an operator (expressions using them must be refused before and work after), one *types.Env rewritten in place to another signature and compiled against} on two reused engines (vm and closure compiler, harness strict / lazy functions registered) over a pool of 15 expressions (fixed: map rendering, print, lazy host calls, shared sub-values; generated) and 7 environment contents (4 of equal types and different values, 2 with a mismatching type, 1 with the same names and top-level kinds but other element types), each content reused as the same map, *types.Env and *val.Env object across calls, expressions and engines; file descriptor 1 redirected for the duration; " +
 			"monitor: every operation's outcome (value incl. string() and String() renderings, failure class, environment rejection) equals the outcome on a fresh engine with fresh objects (map-valued results are thereby rendered tens of times under different hash seeds / iteration orders); a deep snapshot of every host value and environment before == after; a second stream accounts for standard output exactly: bytes written == the reference evaluator's print log. distinct = distinct expression pool",
 		Assume:    []string{"programs with relative time literals are excluded", "outcome equality ignores error message text (only the class)"},
 		MinEvents: 2000, EventKey: "operations_compared",
